@@ -54,7 +54,7 @@ theorem bscSeal_guarded (c : Bsc) (sig : SigRes) (h1 : c.chainId ≤ maxI64) (h2
   have : ¬ c.extraLen < 65 := by omega
   have : ¬ c.chainId > maxI64 := by omega
   have : ¬ c.extraLen < 97 := by omega
-  cases sig <;> simp [*] <;> split <;> rfl
+  cases sig <;> simp [*] <;> repeat' (split <;> try rfl)
 
 /-- bsc: `ClientState.Validate` guards `Initialize` (`% Epoch`, negative chain id in rlp, `Extra[32:len-65]`). -/
 theorem bsc_init_guarded (c : Bsc) (cons : CT) (sig : SigRes) (h : bscValidate c = .ok ()) :
@@ -81,13 +81,40 @@ theorem bsc_upgrade_guarded (c : Bsc) (cons : CT) (sig : SigRes) (p s : Bool) (h
 theorem eth_init_guarded (c : Eth) (cons : CT) (m : Bool) (h : ethValidate c = .ok ()) :
     (ethInit c cons m).isPanic = false := by
   have hb : ¬ c.bloomLen > 256 := by
-    intro hb; unfold ethValidate at h; simp [hb] at h
+    intro hb; unfold ethValidate ethHeaderValidate at h; split at h <;> simp [hb] at h
   unfold ethInit
   split
   · rfl
   · split
     · rfl
     · simp
+
+/-- eth `Header.ValidateBasic` itself never panics any more: the bloom length is checked before `ToEthHeader`
+(oversized bloom at ANY height is an ordinary error), and since 6c8eeb9 height 0 is rejected by `ClientState.Validate`
+before the header is looked at — so the former witness "height 0 with an oversized bloom" is rejected twice over. -/
+theorem eth_header_validate_total (c : Eth) : (ethHeaderValidate c).isPanic = false := by
+  unfold ethHeaderValidate
+  split
+  · rfl
+  · rename_i hb
+    repeat' (split <;> try rfl)
+
+theorem eth_validate_facts (c : Eth) (h : ethValidate c = .ok ()) : c.height ≠ 0 ∧ c.bloomLen ≤ 256 := by
+  unfold ethValidate at h
+  split at h
+  · simp at h
+  · rename_i hz
+    refine ⟨hz, ?_⟩
+    by_cases hb : c.bloomLen > 256
+    · unfold ethHeaderValidate at h; simp [hb] at h
+    · omega
+
+/-- bsc `ClientState.Validate` ⇒ the header is not at height zero (6c8eeb9). -/
+theorem bsc_validate_height (c : Bsc) (h : bscValidate c = .ok ()) : c.height ≠ 0 := by
+  intro hz
+  unfold bscValidate at h
+  repeat' (split at h <;> try simp at h)
+  all_goals omega
 
 theorem cs_init_guarded (c : CS) (cons : CT) (e : Env) (h : csValidate c = .ok ()) :
     (csInit c cons e).isPanic = false := by
@@ -126,11 +153,13 @@ theorem create_no_panic (e : Env) (s : XSt) (p : ClientProp) (h : clientValidate
   unfold handleCreate
   split
   · rfl
-  · simp only [hc, unpack, ok_bind]
-    apply bind_noPanic _ _ (unpack_noPanic _)
-    intro cons _
-    apply bind_noPanic _ _ (cs_init_guarded c cons e hv)
-    intro _ _; rfl
+  · split
+    · rfl
+    · simp only [hc, unpack, ok_bind]
+      apply bind_noPanic _ _ (unpack_noPanic _)
+      intro cons _
+      apply bind_noPanic _ _ (cs_init_guarded c cons e hv)
+      intro _ _; rfl
 
 /-- UpgradeClientProposal: accepted by `ValidateBasic` ⇒ executed without panic, in every state. -/
 theorem upgrade_no_panic (e : Env) (s : XSt) (p : ClientProp) (h : clientValidateBasic p = .ok ()) :
@@ -208,11 +237,13 @@ theorem xHandle_preserves_valid (e : Env) (s s' : XSt) (hs : StoreValid s) (p : 
     simp only [xHandle, handleCreate] at hr
     split at hr
     · simp at hr
-    · simp only [hc, unpack, ok_bind] at hr
-      obtain ⟨_, _, hr⟩ := bind_eq_ok hr
-      obtain ⟨_, _, hr⟩ := bind_eq_ok hr
-      simp at hr; subst hr
-      exact set_valid s hs _ c hv
+    · split at hr
+      · simp at hr
+      · simp only [hc, unpack, ok_bind] at hr
+        obtain ⟨_, _, hr⟩ := bind_eq_ok hr
+        obtain ⟨_, _, hr⟩ := bind_eq_ok hr
+        simp at hr; subst hr
+        exact set_valid s hs _ c hv
   | upgrade p =>
     obtain ⟨c, hc, hv⟩ := clientValidateBasic_val p h
     simp only [xHandle, handleUpgrade, hc, unpack, ok_bind] at hr
@@ -620,19 +651,19 @@ theorem aValidateLoop_spec (l : List GenPair) (se sd : List String) (h : aValida
     unfold aValidateLoop at h
     split at h
     · simp at h
-    · split at h
+    · rename_i hne
+      split at h
       · simp at h
-      · rename_i d0 v tl hd
+      · rename_i hden
         split at h
         · simp at h
         · split at h
           · simp at h
-          · rename_i hden
-            split at h
+          · split at h
             · simp at h
             · intro b hb
               rcases List.mem_cons.mp hb with rfl | hb
-              · refine ⟨by simp [hd], ?_⟩
+              · refine ⟨by intro he; simp [he] at hne, ?_⟩
                 intro d hdm he
                 apply hden
                 simp only [List.any_eq_true]
@@ -702,14 +733,14 @@ theorem beginBlocker_no_panic (s : Vesting.State) (hv : Vesting.Valid s.reward) 
 client state panics in `Initialize`. -/
 theorem unfixed_bsc_epoch_witness :
     ∃ c sig, bscHeaderValidate c = .ok () ∧ (bscInit c .bsc sig).isPanic = true :=
-  ⟨{ epoch := 0, chainId := 56, height := 0, extraLen := 97, mixZero := true, uncleOk := true,
-     bloomLen := 0, nonceLen := 0, diffZero := true }, .fail, by decide, by decide⟩
+  ⟨{ epoch := 0, chainId := 56, height := 200, extraLen := 117, mixZero := true, uncleOk := true,
+     bloomLen := 0, nonceLen := 0, diffZero := false }, .fail, by decide, by decide⟩
 
 /-- Without the `ChainId ≤ MaxInt64` guard an accepted client state panics in `encodeSigHeader`. -/
 theorem unfixed_bsc_chainid_witness :
     ∃ c sig, bscHeaderValidate c = .ok () ∧ c.epoch ≠ 0 ∧ (bscInit c .bsc sig).isPanic = true :=
-  ⟨{ epoch := 200, chainId := 9223372036854775808, height := 0, extraLen := 97, mixZero := true, uncleOk := true,
-     bloomLen := 0, nonceLen := 0, diffZero := true }, .fail, by decide, by decide, by decide⟩
+  ⟨{ epoch := 200, chainId := 9223372036854775808, height := 200, extraLen := 117, mixZero := true, uncleOk := true,
+     bloomLen := 0, nonceLen := 0, diffZero := false }, .fail, by decide, by decide, by decide⟩
 
 /-! ### Non-vacuity -/
 
